@@ -502,6 +502,12 @@ def sites_of(facts, fn):
                     r_ = r_.get("recv")
                 if r_ is not None and r_.get("k") in ("mcall", "call") and _thin_accessor(r_) is not None:
                     st_.alt = "call:" + fb.last2(fb.callee(r_) or r_.get("name") or "?")
+                # "the first element": `v.first()` (+ cloned) and `v.into_iter().next()` / `v.iter().next()` are the same site
+                if r_ is not None and r_.get("k") == "mcall" and st_.alt is None:
+                    if r_["name"] == "next" and (r_.get("recv") or {}).get("k") == "mcall" and r_["recv"]["name"] in ("into_iter", "iter"):
+                        st_.alt = "call:slice::first"
+                    elif r_["name"] == "first":
+                        st_.alt = "call:Iterator::next"
                 out.append((node["s"][0], st_))
             elif c in _UNWRAP_OR_ELSE and node.get("args") and node["args"][0].get("k") == "closure" and \
                     any(_macro_panic_kind(y.get("m")) for y in fb.walk(node["args"][0]["body"])) and _is_diverging_block(_last_expr(node["args"][0]["body"])):
